@@ -1,9 +1,12 @@
 """C18 watchdog pool: N long-lived worker subprocesses (c18_worker.py), one thread each; the parent owns the clock.
 
-A case that misses its deadline gets its worker KILLED (a `nogil` numba loop cannot be interrupted), is retried once in a
-fresh worker with a three times longer deadline (so that JIT compilation under machine load is never mistaken for a
-hang) and is then recorded as outcome "hang"; after the first confirmed hang of a bucket (family) later timeouts of that bucket are not
-retried, and after four hangs the remaining cases of the bucket are skipped (counted), so that a broken loop cannot stall the check.  A worker that dies is recorded as outcome "crash" with its exit status.
+Wall-clock deadlines only DETECT hangs.  Each deadline is stretched by the slowdown of the moment (contention seen by a reference computation
+at the start of the run, load average per CPU: loadtol.slowdown).  A case that misses its deadline gets its worker KILLED (a `nogil` numba loop
+cannot be interrupted) and is a SUSPECT; when all workers have finished, every suspect is run again ALONE — a fresh worker, nothing else of this
+check running — with three times the (re-stretched) deadline, and only a second miss is recorded as outcome "hang" ("confirmed_by_retry"); a
+suspect that answers is recorded with "first_attempt": "timeout" (rescued).  After `hang_cap` suspects in a bucket (family) the remaining cases of
+the bucket are deferred, so that a broken loop cannot stall the check; they are run after the confirmation phase if no hang of the bucket was
+confirmed, and counted as skipped otherwise.  A worker that dies is recorded as outcome "crash" with its exit status.
 """
 from __future__ import annotations
 
@@ -18,6 +21,8 @@ import tempfile
 import threading
 import time
 from pathlib import Path
+
+import loadtol
 
 WORKER = Path(__file__).resolve().parent / "c18_worker.py"
 START_DEADLINE = 180.0      # import sparse + numba under load
@@ -131,6 +136,8 @@ class Pool:
         self.scratch = tempfile.mkdtemp(prefix="verif-c18-", dir="/var/tmp")
         self.lock = threading.Lock()
         self.hangs_by_bucket: dict[str, int] = {}
+        self.suspects_by_bucket: dict[str, int] = {}
+        self.ref = None
         self.stats = {"workers_started": 0, "workers_killed": 0, "workers_died": 0, "retries": 0, "retry_rescued": 0, "skipped_after_hangs": 0}
         self.sparse_file = None
         self.procs: list[Proc | None] = [None] * nworkers
@@ -193,33 +200,72 @@ class Pool:
             if m.get("phase") == "done":
                 return m, True
 
+    def calibrate(self):
+        """the reference computation in worker 0, before anything else runs"""
+        p = self.procs[0] or self._fresh(0)
+        if p.send({"op": "__calibrate__", "id": -1}):
+            m = p.readline(START_DEADLINE)
+            if isinstance(m, dict) and m.get("out") == "ok":
+                self.ref = {"cpu": m.get("cpu"), "wall": m.get("wall")}
+        self.stats["reference_computation"] = self.ref
+        self.stats["slowdown_at_start"] = round(loadtol.slowdown(self.ref), 2)
+        return self.ref
+
+    def stretch(self, seconds):
+        return seconds * loadtol.slowdown(self.ref)
+
     def run_case(self, i, case):
         bucket = case.get("bucket") or case.get("fam") or case.get("op")
         with self.lock:
-            nh = self.hangs_by_bucket.get(bucket, 0)
+            nh = self.suspects_by_bucket.get(bucket, 0)
         if nh >= case.get("hang_cap", 4):
-            with self.lock:
-                self.stats["skipped_after_hangs"] += 1
-            return {"out": "skipped", "why": f"{nh} hangs already recorded in bucket {bucket}"}
+            return {"out": "deferred", "bucket": bucket}
         deadline = case.get("deadline") or (BASE_DEADLINE + PER_UNIT * case_size(case))
-        rec, _ = self._attempt(i, case, deadline)
-        # one confirmed hang in a bucket makes the later timeouts of that bucket credible without a retry
-        if rec["out"] == "hang" and not case.get("noretry") and nh < 1:
+        rec, _ = self._attempt(i, case, self.stretch(deadline))
+        if rec["out"] == "hang":
+            rec["out"] = "suspect"
+            with self.lock:
+                self.suspects_by_bucket[bucket] = self.suspects_by_bucket.get(bucket, 0) + 1
+        return rec
+
+    def confirm(self, cases, results):
+        """the solitary phase: suspects are retried alone, deferred cases are run (or skipped when their bucket has a confirmed hang)"""
+        for p in self.procs:             # nothing else of this check is running now; idle workers stay, they use no CPU
+            pass
+        confirmed: dict[str, int] = {}
+        order = [k for k, r in enumerate(results) if r and r.get("out") == "suspect"]
+        for k in order:
+            case = cases[k]
+            bucket = case.get("bucket") or case.get("fam") or case.get("op")
+            deadline = case.get("deadline") or (BASE_DEADLINE + PER_UNIT * case_size(case))
+            self.log(f"C18: {case.get('op')} missed its deadline ({results[k].get('deadline')} s); retrying alone")
             with self.lock:
                 self.stats["retries"] += 1
-            rec2, _ = self._attempt(i, case, 3 * deadline)
+            if self.procs[0] is not None:        # a fresh worker for the retry
+                self.procs[0].send({"op": "__quit__"})
+                self.procs[0].kill()
+                self.procs[0] = None
+            rec2, _ = self._attempt(0, case, self.stretch(3 * deadline))
             if rec2["out"] != "hang":
-                with self.lock:
-                    self.stats["retry_rescued"] += 1
+                self.stats["retry_rescued"] += 1
                 rec2["first_attempt"] = "timeout"
-                rec = rec2
             else:
-                rec = rec2
-                rec["confirmed_by_retry"] = True
-        if rec["out"] == "hang":
-            with self.lock:
+                rec2["confirmed_by_retry"] = True
+                confirmed[bucket] = confirmed.get(bucket, 0) + 1
                 self.hangs_by_bucket[bucket] = self.hangs_by_bucket.get(bucket, 0) + 1
-        return rec
+            results[k] = rec2
+        for k, r in enumerate(results):
+            if r and r.get("out") == "deferred":
+                if confirmed.get(r["bucket"]):
+                    self.stats["skipped_after_hangs"] += 1
+                    results[k] = {"out": "skipped", "why": f"{confirmed[r['bucket']]} hangs confirmed in bucket {r['bucket']}"}
+                else:
+                    case = cases[k]
+                    deadline = case.get("deadline") or (BASE_DEADLINE + PER_UNIT * case_size(case))
+                    rec, _ = self._attempt(0, case, self.stretch(3 * deadline))
+                    if rec["out"] == "hang":
+                        rec["confirmed_by_retry"] = True      # it ran alone already
+                    results[k] = rec
 
     # -- many cases ----------------------------------------------------------------------------------------------------
     def run(self, cases, progress=None):
@@ -270,4 +316,8 @@ class Pool:
             t.join()
         if errors:
             raise errors[0]
+        sent = [{**{kk: v for kk, v in c.items() if kk in ("id", "op", "arrays", "args", "kwargs", "warm", "touch", "spec", "value")},
+                 **{kk: c.get(kk) for kk in ("fam", "bucket", "deadline", "noretry", "hang_cap") if c.get(kk) is not None}} for c in cases]
+        self.confirm(sent, results)
+        self.suspects_by_bucket.clear()
         return results
